@@ -365,6 +365,20 @@ func genDeliveryScenario(g *prng.R) (*sim.Scenario, M) {
 			act[k] = vals
 		}
 	}
+	// the same addressing on the two kinds of post that pass through more of
+	// the library before delivery: a Create (recipients are normalised
+	// between the activity and its object) and a bare object (wrapped in a
+	// Create, which takes the addressing over)
+	switch g.Intn(6) {
+	case 0:
+		act["type"] = "Create"
+		act["object"] = M{"type": "Note", "content": "created"}
+	case 1:
+		delete(act, "actor")
+		delete(act, "object")
+		act["type"] = "Note"
+		act["content"] = "posted bare"
+	}
 	// (application-stored inboxes are chosen by the caller, from the final
 	// addressing)
 	if allStored {
